@@ -42,11 +42,21 @@ Definition op_atan2 (y x : R) : R :=
   else if Rlt_dec 0 y then PI / 2
   else if Rlt_dec y 0 then - PI / 2
   else 0.
-Definition op_pow (x y : R) : R := Rpower x y.
+(* C pow for the non-integer exponents that reach it (integer constant exponents are emitted as x ^ n): positive base:
+   Rpower; pow(x, 0) = 1; pow(0, y) = 0 for y > 0.  Not modelled (value 0 here): pow(0, y < 0) = +inf and the NaN of a
+   negative base with a non-integer exponent. *)
+Definition op_pow (x y : R) : R := if Rlt_dec 0 x then Rpower x y else if Req_EM_T y 0 then 1 else 0.
 Definition op_exp (x : R) : R := exp x.
 Definition op_log (x : R) : R := ln x.
 
 (* ---------- elementary facts used by every proof file ---------- *)
+Lemma op_pow_pos x y : 0 < x -> op_pow x y = Rpower x y.
+Proof. intro H. unfold op_pow. destruct (Rlt_dec 0 x); [reflexivity | contradiction]. Qed.
+Lemma op_pow_0 y : y <> 0 -> op_pow 0 y = 0.
+Proof.
+  intro H. unfold op_pow. destruct (Rlt_dec 0 0) as [L|L]; [exfalso; apply (Rlt_irrefl 0 L)|].
+  destruct (Req_EM_T y 0); [contradiction | reflexivity].
+Qed.
 
 Lemma Rltb_true a b : a < b -> Rltb a b = true.
 Proof. unfold Rltb; destruct (Rlt_dec a b); [reflexivity|contradiction]. Qed.
